@@ -13,70 +13,128 @@ from .P import _parents, _path_text
 
 
 @rule('P7', 'marker-pairing: what is inserted as start marker at `start` is inserted as stop marker at `end`; insert_settings appends for '
-            'topmost and prepends otherwise', floor=4)
+            'topmost and prepends otherwise', floor=3)
 def P7(m, R):
+    from ..shapes import local_aliases, canon, with_helpers
     ro = m.roles
     f = m.fn('AnsiString.apply_formatting')
     ins = m.fn('%s.insert_settings' % ro.POINT)
-    calls = [n for n in f.body if isinstance(n, ast.Expr) and call_name(n.value) == 'insert_settings']
-    calls = [c.value for c in calls]
+    al = local_aliases(f)
     tbl = '%s.%s' % (f.self_name, ro.TABLE)
-    got = {}
-    for c in calls:
-        b, _ = bind_call(c, ins)
-        recv = norm(c.func.value)
-        got[recv] = {k: norm(v) for k, v in b.items()}
-    cons = 'apply_formatting start/stop pairing'
-    s, e = got.get('%s[start]' % tbl), got.get('%s[end]' % tbl)
-    problems = []
+    scrubbed = next((norm(n.targets[0]) for n in f.walk() if isinstance(n, ast.Assign) and call_name(n.value) == ro.SCRUB), None)
     ps = ins.own_params()
-    if s is None or e is None:
-        problems.append('start markers go to %s' % sorted(got))
+
+    def point_key(recv):
+        """index expression of the point a receiver denotes: table[k], helper(k), table.setdefault(k, ...)"""
+        t = subst(recv, al)
+        if isinstance(t, ast.Subscript) and norm(t.value) == tbl:
+            return norm(t.slice)
+        if isinstance(t, ast.Call) and isinstance(t.func, ast.Attribute) and is_name(t.func.value, f.self_name) and len(t.args) == 1 and t.func.attr.startswith('_'):
+            return norm(t.args[0])
+        if isinstance(t, ast.Call) and call_name(t) == 'setdefault' and norm(t.func.value) == tbl:
+            return norm(t.args[0])
+        return None
+    got = {}
+    for c in [n for n in f.walk() if isinstance(n, ast.Call) and call_name(n) == 'insert_settings' and isinstance(n.func, ast.Attribute)]:
+        b, _ = bind_call(c, ins)
+        if scrubbed is None or norm(b.get(ps[1])) != scrubbed:
+            continue
+        k = point_key(c.func.value)
+        got.setdefault(k, []).append({x: norm(v) for x, v in b.items()})
+    cons = 'apply_formatting start/stop pairing'
+    problems = []
+    if None in got:
+        R.undecided(f, f.node, 'the point receiving the settings is not recognised', construct=cons)
     else:
-        if s.get(ps[0]) != 'True':
-            problems.append('at `start` the settings are inserted with apply=%s (they must start there)' % s.get(ps[0]))
-        if e.get(ps[0]) != 'False':
-            problems.append('at `end` the settings are inserted with apply=%s (they must stop there)' % e.get(ps[0]))
-        if s.get(ps[1]) != e.get(ps[1]):
-            problems.append('started %s but stopped %s' % (s.get(ps[1]), e.get(ps[1])))
-        if s.get(ps[2]) != 'topmost':
-            problems.append('start insertion ignores topmost (%s)' % s.get(ps[2]))
-    R.check(not problems, f, calls[0] if calls else f.node, 'the same list is started at `start` (respecting topmost) and stopped at `end`',
-            '; '.join(problems), construct=cons)
-    # points exist before they are used
-    for key in ('start', 'end'):
-        g = next((n for n in f.body if isinstance(n, ast.If) and norm(n.test) == '%s not in %s' % (key, tbl)), None)
-        ok = g is not None and any(isinstance(x, ast.Assign) and norm(x.targets[0]) == '%s[%s]' % (tbl, key) and call_name(x.value) == ro.POINT and not x.value.args
-                                   for x in g.body)
-        R.check(ok, f, g or f.node, 'a missing point at `%s` is created empty before use' % key, construct='apply_formatting point at ' + key)
-    # insert_settings
+        s_, e_ = got.get('start', []), got.get('end', [])
+        if len(s_) != 1 or len(e_) != 1 or set(got) - {'start', 'end'}:
+            problems.append('the new settings are inserted at points %s; expected once at `start` and once at `end`' % {k: len(v) for k, v in got.items()})
+        else:
+            if s_[0].get(ps[0]) != 'True':
+                problems.append('at `start` the settings are inserted with apply=%s (they must start there)' % s_[0].get(ps[0]))
+            if e_[0].get(ps[0]) != 'False':
+                problems.append('at `end` the settings are inserted with apply=%s (they must stop there)' % e_[0].get(ps[0]))
+            if s_[0].get(ps[2]) != 'topmost':
+                problems.append('start insertion ignores topmost (%s)' % s_[0].get(ps[2]))
+        R.check(not problems, f, f.node, 'the scrubbed list is started at `start` (respecting topmost) and stopped at `end`', '; '.join(problems), construct=cons)
+    # insert_settings: where the settings land for topmost / not topmost
     apply_p, settings_p, top_p = ps[:3]
     cons = 'insert_settings'
-    problems = []
+    ial = local_aliases(ins)
     lst = None
+    sel_ok = None
     for n in ins.body:
-        if isinstance(n, ast.Assign) and isinstance(n.value, ast.IfExp):
+        if isinstance(n, ast.Assign) and isinstance(n.value, ast.IfExp) and isinstance(n.targets[0], ast.Name) and names_in(n.value.test) == {apply_p}:
             lst = norm(n.targets[0])
             tv = eval_guard(n.value.test, flag_valuation({apply_p: True}))
             a, b = (n.value.body, n.value.orelse) if tv else (n.value.orelse, n.value.body)
-            if norm(a) != 'self.' + ro.START or norm(b) != 'self.' + ro.STOP or tv is None:
-                problems.append('apply=True selects %s, apply=False selects %s' % (norm(a), norm(b)))
+            sel_ok = (norm(a) == 'self.' + ro.START and norm(b) == 'self.' + ro.STOP and tv is not None, norm(a), norm(b))
     if lst is None:
         R.undecided(ins, ins.node, 'list selection not recognised', construct=cons)
+        return
+    problems = []
+    if not sel_ok[0]:
+        problems.append('apply=True selects %s, apply=False selects %s' % (sel_ok[1], sel_ok[2]))
+    where = {}
+    try:
+        for tv in (True, False):
+            ev = []
+
+            def visit(st):
+                if isinstance(st, ast.Expr) and isinstance(st.value, ast.Call) and call_name(st.value) == 'extend' and norm(st.value.func.value) == lst:
+                    ev.append(('append', norm(st.value.args[0])))
+                elif isinstance(st, ast.AugAssign) and norm(st.target) == lst and isinstance(st.op, ast.Add):
+                    ev.append(('append', norm(st.value)))
+                elif isinstance(st, ast.Assign) and isinstance(st.targets[0], ast.Subscript) and norm(st.targets[0].value) == lst and isinstance(st.targets[0].slice, ast.Slice):
+                    sl = st.targets[0].slice
+
+                    def pos(e):
+                        if e is None:
+                            return None
+                        e = subst(e, {k: v for k, v in ial.items()})
+                        # locals assigned from a conditional expression on topmost
+                        for a_ in ins.body:
+                            if isinstance(a_, ast.Assign) and isinstance(e, ast.Name) and norm(a_.targets[0]) == e.id:
+                                e = a_.value
+                        while isinstance(e, ast.IfExp):
+                            r = eval_guard(e.test, flag_valuation({top_p: tv}))
+                            if r is None:
+                                raise Undecided('position %s' % norm(e))
+                            e = e.body if r else e.orelse
+                        return norm(e)
+                    lo, hi = pos(sl.lower), pos(sl.upper)
+                    if (lo, hi) in ((None, '0'), ('0', '0')):
+                        ev.append(('prepend', norm(st.value)))
+                    elif (lo, hi) in (('len(%s)' % lst, None), ('len(%s)' % lst, 'len(%s)' % lst)):
+                        ev.append(('append', norm(st.value)))
+                    else:
+                        ev.append(('slice %s:%s' % (lo, hi), norm(st.value)))
+            run_block([x for x in ins.body], flag_valuation({top_p: tv}, {
+                'isinstance(%s, list)' % settings_p: True, 'isinstance(%s, tuple)' % settings_p: False, 'isinstance(%s, (list, tuple))' % settings_p: True,
+                'not isinstance(%s, list)' % settings_p: False, 'not isinstance(%s, tuple)' % settings_p: True}), visit)
+            where[tv] = ev
+    except Undecided as e:
+        R.undecided(ins, ins.node, str(e), construct=cons)
+        return
+    if where.get(True) != [('append', settings_p)]:
+        problems.append('topmost does %s, expected the settings appended at the end (highest precedence)' % where.get(True))
+    if where.get(False) != [('prepend', settings_p)]:
+        problems.append('not topmost does %s, expected the settings inserted at the front in their order (lowest precedence)' % where.get(False))
+    R.check(not problems, ins, ins.node, 'apply selects START/STOP; topmost appends, otherwise prepends', '; '.join(problems), construct=cons)
+    # the points exist before they are used: an explicit create-if-missing, a helper doing it, or setdefault
+    cons = 'apply_formatting points exist'
+    creates = set()
+    for g in with_helpers(m, f, 1):
+        for n in g.walk():
+            if isinstance(n, ast.If) and isinstance(n.test, ast.Compare) and isinstance(n.test.ops[0], ast.NotIn) and norm(n.test.comparators[0]).endswith('.' + ro.TABLE) and \
+                    any(isinstance(x, ast.Assign) and call_name(x.value) == ro.POINT and not x.value.args and not x.value.keywords for x in n.body):
+                creates.add(g.qual)
+            if isinstance(n, ast.Call) and call_name(n) == 'setdefault' and norm(n.func.value).endswith('.' + ro.TABLE):
+                creates.add(g.qual)
+    if creates:
+        R.ok(f, f.node, 'missing points are created empty before use (%s)' % sorted(creates), construct=cons)
     else:
-        g = next((n for n in ins.body if isinstance(n, ast.If) and top_p in names_in(n.test)), None)
-        if g is None:
-            problems.append('no dispatch on topmost')
-        else:
-            tv = eval_guard(g.test, flag_valuation({top_p: True}))
-            top, bottom = (g.body, g.orelse) if tv else (g.orelse, g.body)
-            tt = [norm(x) for x in top]
-            bt = [norm(x) for x in bottom]
-            if tt not in (['%s.extend(%s)' % (lst, settings_p)], ['%s += %s' % (lst, settings_p)], ['%s[len(%s):] = %s' % (lst, lst, settings_p)]):
-                problems.append('topmost does %s, expected append at the end (highest precedence)' % tt)
-            if bt not in (['%s[:0] = %s' % (lst, settings_p)], ['%s[0:0] = %s' % (lst, settings_p)]):
-                problems.append('not topmost does %s, expected insertion at the front (lowest precedence) keeping the order of the settings' % bt)
-        R.check(not problems, ins, ins.node, 'apply selects START/STOP; topmost appends, otherwise prepends', '; '.join(problems), construct=cons)
+        R.undecided(f, f.node, 'no create-if-missing for the points at start / end found', construct=cons)
 
 
 # ----------------------------------------------------------------------------------------------------------------------
@@ -544,6 +602,15 @@ def P21(m, R):
     found_arm, nf_arm = (g.body, g.orelse) if found_true else (g.orelse, g.body)
     ft = [norm(x) for x in found_arm]
     nt = [norm(x) for x in nf_arm]
+    # statements that follow the if in the same block run in both cases
+    blk = g._parent
+    tail_ = []
+    for fld in ('body', 'orelse'):
+        L_ = getattr(blk, fld, None)
+        if isinstance(L_, list) and g in L_:
+            tail_ = [norm(x) for x in L_[L_.index(g) + 1:]]
+    ft += tail_
+    nt += tail_
     acc = None
     for t in nt:
         mm = re.match(r'^(\w+)\.append\(%s\)$' % re.escape(sv), t)
@@ -731,11 +798,14 @@ def P12(m, R):
     idx, point, active = [norm(x) for x in loop.target.elts]
     pre = f.body[:f.body.index(loop)]
     post = f.body[f.body.index(loop) + 1:]
-    # names of start / end locals: the ones compared with idx in the loop
+    from ..shapes import local_aliases, canon
+    al = local_aliases(f)
+    # names of start / end locals: the ones compared with idx in the loop (a cached len(text) is not one of them)
     cmpn = set()
     for n in ast.walk(loop):
         if isinstance(n, ast.Compare) and norm(n.left) == idx and isinstance(n.comparators[0], ast.Name):
-            cmpn.add(n.comparators[0].id)
+            if not canon(n.comparators[0], al).startswith('len('):
+                cmpn.add(n.comparators[0].id)
     new_s = None
     for n in pre:
         if isinstance(n, ast.Assign) and call_name(n.value) == 'AnsiString' and isinstance(n.targets[0], ast.Name):
@@ -771,6 +841,7 @@ def P12(m, R):
             seqs.append(combo)
     problems = {}
     n_scen = 0
+    canon_cache = {}
 
     def add(kind, msg, scen):
         problems.setdefault(kind, []).append((msg, scen))
@@ -789,7 +860,9 @@ def P12(m, R):
             facts = {}
 
             def val(atom):
-                t = norm(atom)
+                t = canon_cache.get(id(atom))
+                if t is None:
+                    t = canon_cache[id(atom)] = canon(atom, al)
                 if t in facts:
                     return facts[t]
                 if isinstance(atom, ast.Name) and atom.id in state:
@@ -816,6 +889,8 @@ def P12(m, R):
                     else:
                         state[s.targets[0].id] = ('?', cur['it'], True)
                     return
+                if isinstance(s, ast.Assign) and isinstance(s.targets[0], ast.Name) and s.targets[0].id in al:
+                    return          # a cached sub-expression (alias), not state
                 if isinstance(s, ast.Assign) and isinstance(s.targets[0], ast.Subscript) and norm(s.targets[0].value) == tblnew and call_name(s.value) == ro.POINT:
                     key = norm(s.targets[0].slice)
                     pt = m.fn(ro.POINT + '.__init__')
@@ -841,7 +916,7 @@ def P12(m, R):
                         return ('?', t)
                     events.append(('store', key, src(a0), src(a1), cur['it']))
                     return
-                if isinstance(s, ast.Expr) and call_name(s.value) == 'extend' and norm(s.value.func.value).startswith(tblnew):
+                if isinstance(s, ast.Expr) and call_name(s.value) == 'extend' and (canon_cache.get(id(s)) or canon_cache.setdefault(id(s), canon(s.value.func.value, al))).startswith(tblnew):
                     events.append(('close', cur['it']))
             ended = None
             try:
